@@ -91,6 +91,11 @@ var propDrivers = map[string]*propDriver{
 		"C06 claims: absence of run-time panics (index, slice bounds, nil dereference, failed type assertion, division, make with negative length) for every repository function under its contract, callee preconditions at every call site, and value-xor-error for every constructor",
 		"termination is proved only implicitly for unit-stride loops (the auto-summary bounds the iteration count by the loop guard); while-style loops and the time bound (at most quadratic) are not decided by this technique",
 	}},
+	"C18": {extra: func(w *World, tier string) []VC { return w.textFlowVCs() },
+		notes: []string{
+			"C18 = proved postconditions (String() returns the stored text; the stored text is the input or its TrimSpace) + read-frame obligations decided by dataflow over the SSA (raw input used only through strings.TrimSpace; stored text of user-supplied values read only where it is trimmed)",
+			"from these, 'parsing the returned text again' and 'padding the input with white space' give the same non-text fields because TrimSpace is idempotent (assumed library contract) and the constructors are deterministic functions of TrimSpace(input) (C19)",
+		}},
 	"C19": {extra: func(w *World, tier string) []VC { return w.frameVCs() },
 		notes: []string{
 			"C19 is decided as a frame condition: every write site of every repository function is shown to hit activation-fresh memory by a freshness dataflow over the SSA (back end govc-dataflow, not SMT)",
@@ -148,11 +153,32 @@ func checkCmd(args []string) int {
 	os.RemoveAll(workDir)
 	results := runVCs(vcs, workDir, timeout, 8)
 	sort.Slice(results, func(i, j int) bool { return results[i].vc.Name < results[j].vc.Name })
+	// second chance for claimed obligations that did not discharge: alone on the machine, three times the budget
+	if base0, err := loadBaseline(prop); err == nil && !*mkBaseline {
+		for i := range results {
+			r := &results[i]
+			if _, claimed := base0[r.vc.Name]; !claimed || r.vc.ExpectSat || r.vc.Run != nil || r.vc.Kind == "unsupported" {
+				continue
+			}
+			if r.res.Status == "unknown" || r.res.Status == "timeout" || r.res.Status == "error" {
+				file := filepath.Join(workDir, sanitizeFile(r.vc.Name)+".retry.smt2")
+				r2 := solve(r.vc.Script, file, 3*timeout, false)
+				if r2.Status == "unsat" {
+					r2.Output = "discharged on retry"
+					r.res = r2
+				}
+			}
+		}
+	}
 
 	if *mkBaseline {
 		var lines []string
 		for _, r := range results {
 			if r.vc.ExpectSat {
+				continue
+			}
+			if r.res.Status == "unsat" && r.res.Seconds > 4.0 && r.vc.Run == nil {
+				fmt.Printf("not claimed (slow: %.1fs): %s\n", r.res.Seconds, r.vc.Name)
 				continue
 			}
 			if r.res.Status == "unsat" && !condForBaseline(results, r) {
